@@ -180,6 +180,18 @@ impl AnyMap {
     pub fn orbit(&self, p: Policy, d: u32) -> Vec<u32> {
         both!(self, |m| m.orbit(policy_of(p), d).collect())
     }
+    pub fn i_cell(&self, o: u8, d: u32) -> Vec<u32> {
+        match (self, o) {
+            (AnyMap::M2(m), 0) => m.i_cell::<0>(d).collect(),
+            (AnyMap::M2(m), 1) => m.i_cell::<1>(d).collect(),
+            (AnyMap::M2(m), 2) => m.i_cell::<2>(d).collect(),
+            (AnyMap::M3(m), 0) => m.i_cell::<0>(d).collect(),
+            (AnyMap::M3(m), 1) => m.i_cell::<1>(d).collect(),
+            (AnyMap::M3(m), 2) => m.i_cell::<2>(d).collect(),
+            (AnyMap::M3(m), 3) => m.i_cell::<3>(d).collect(),
+            _ => panic!("no {o}-cells in this dimension"),
+        }
+    }
     pub fn orbit_tx(&self, t: &mut Transaction, p: Policy, d: u32) -> StmClosureResult<Vec<u32>> {
         both!(self, |m| m.orbit_transac(t, policy_of(p), d).collect::<Result<Vec<u32>, _>>())
     }
@@ -211,10 +223,17 @@ impl AnyMap {
         }
     }
     pub fn write_vertex(&self, id: u32, v: Bits3) -> Option<Bits3> {
-        atomically(|t| self.write_vertex_tx(t, id, v))
+        let f = f3(v);
+        match self {
+            AnyMap::M2(m) => m.force_write_vertex(id, Vertex2(f[0], f[1])).map(|v| b3([v.0, v.1, 0.0])),
+            AnyMap::M3(m) => m.force_write_vertex(id, Vertex3(f[0], f[1], f[2])).map(|v| b3([v.0, v.1, v.2])),
+        }
     }
     pub fn remove_vertex(&self, id: u32) -> Option<Bits3> {
-        atomically(|t| self.remove_vertex_tx(t, id))
+        match self {
+            AnyMap::M2(m) => m.force_remove_vertex(id).map(|v| b3([v.0, v.1, 0.0])),
+            AnyMap::M3(m) => m.force_remove_vertex(id).map(|v| b3([v.0, v.1, v.2])),
+        }
     }
 
     // ---- attributes
